@@ -731,6 +731,23 @@ def h_count_nonzero(I, a, k, st, n):
     return lm.mask_count(m)
 
 
+def h_interp(I, a, k, st, n):
+    """np.interp(x, xp, fp): piecewise-linear interpolant of the table (xp, fp) evaluated at x - kept as an uninterpreted function of x
+    that is specific to the table (it is *not* the tabulated function itself)."""
+    import hashlib
+    if len(a) < 3: return Opaque("np.interp arguments")
+    if any(k.get(z) is not None for z in ("left", "right", "period")) or len(a) > 3: return Opaque("np.interp with boundary arguments")
+    tabs = []
+    for t_ in a[1:3]:
+        if isinstance(t_, LocalArr): t_ = _arr(t_, st)
+        T_ = as_arr(t_)
+        if T_ is None or is_opaque(T_): return Opaque("np.interp table not recognised")
+        tabs.append(repr(vkey(Arr([(f"_t{i}", c) for i, (v, c) in enumerate(T_.axes)], subst_val(T_.body, {v: X.var(f"_t{i}") for i, (v, c) in enumerate(T_.axes)})))))
+    tag = hashlib.md5("|".join(tabs).encode()).hexdigest()[:8]
+    return lift1(lambda x: mk_fn("interp#" + tag, [x], "real"), a[0])
+
+
+_reg("numpy.interp", h_interp)
 _reg("numpy.flatnonzero", h_flatnonzero)
 _reg("numpy.count_nonzero", h_count_nonzero)
 _reg("numpy.multiply", _binary("*"))
